@@ -65,7 +65,8 @@ type nodeChk struct {
 	snapOutstanding bool
 
 	// C18
-	emitted *absLog
+	emitted   *absLog
+	handedOut []handedOut
 
 	// C16
 	episodes map[uint64]*fcEpisode
@@ -83,6 +84,7 @@ type nodeChk struct {
 	isLeader      bool
 	heardTick     map[uint64]uint64
 	lastDisqTick  uint64
+	confVersions  []confVersion
 
 	// C11
 	readRecv map[string]int     // ctx -> earliest step at which this leader received the request (this leadership)
@@ -96,6 +98,14 @@ type nodeChk struct {
 	// C06 cm.match_sound
 	lastMatch     map[uint64]uint64
 	lastMatchTerm uint64
+}
+
+// handedOut is a write group as it was when raft handed it out (ents) and
+// the live slice the application holds (live).
+type handedOut struct {
+	first uint64
+	ents  []*pb.Entry
+	live  []*pb.Entry
 }
 
 type fcEpisode struct {
@@ -296,6 +306,7 @@ func (k *Checker) onStart(n *Node, restart bool) {
 	x.log, x.logFirst = nil, 0
 	x.haveHS, x.haveEm = false, false
 	x.applyOutSizes = nil
+	x.handedOut = nil
 	x.snapOutstanding = false
 	x.episodes = map[uint64]*fcEpisode{}
 	x.ucAccepted, x.ucApplied = 0, 0
